@@ -158,6 +158,21 @@ class Scenario:
         self.starter = None
         self.client_start_in_task = False
         self.start_result = None
+        self.local_addr, self.peer_addr = LOCAL_ADDR, PEER_ADDR
+
+    @classmethod
+    def twin_of(cls, sc, peer_addr=("127.0.0.3", 3871), local_addr=None):
+        """A second node in the same execution (same scheduler, same substituted network, same local identity by default):
+        shares everything that is installed globally; has its own node object, sockets and emitted stream."""
+        t = cls.__new__(cls)
+        t.__dict__.update({k: v for k, v in sc.__dict__.items()})
+        t.node = t.peer_sock = t.node_sock = t.lsock = t.starter = None
+        t.emitted_buf = bytearray()
+        t.emitted_msgs = []
+        t.start_result = None
+        t.peer_addr = peer_addr
+        t.local_addr = local_addr or sc.local_addr
+        return t
 
     def __enter__(self):
         install(self.sched, self.net)
@@ -211,10 +226,7 @@ class Scenario:
 
     def config(self):
         local, peer = (LOCAL, PEER)
-        if self.role == "client":
-            laddr, paddr = LOCAL_ADDR, PEER_ADDR
-        else:
-            laddr, paddr = LOCAL_ADDR, PEER_ADDR
+        laddr, paddr = self.local_addr, self.peer_addr
         return {"MODE": "CLIENT" if self.role == "client" else "SERVER", "TRANSPORT_TYPE": self.transport,
                 "APPLICATIONS": [{"vendor_id": b"\x00\x00\x28\xaf", "app_id": u32(a)} for a in self.apps],
                 "LOCAL_NODE_HOSTNAME": local[0], "LOCAL_NODE_REALM": local[1],
@@ -232,7 +244,7 @@ class Scenario:
     def listen(self):
         """client role: the harness peer listens"""
         self.lsock = vnet.FakeSocket(self.net, harness_side=True)
-        self.lsock.bind(PEER_ADDR)
+        self.lsock.bind(self.peer_addr)
         self.lsock.listen()
 
     def start_node(self):
@@ -262,10 +274,10 @@ class Scenario:
             self.peer_sock = self.lsock.backlog.pop(0)
             self.node_sock = self.peer_sock.peer
         else:
-            if not s.run_until(lambda: LOCAL_ADDR in self.net.listeners, timeout, "node-listen"):
+            if not s.run_until(lambda: self.local_addr in self.net.listeners, timeout, "node-listen"):
                 return False
             self.peer_sock = vnet.FakeSocket(self.net, harness_side=True)
-            self.peer_sock.connect_ex(LOCAL_ADDR)
+            self.peer_sock.connect_ex(self.local_addr)
             self.node_sock = self.peer_sock.peer
         return True
 
